@@ -692,7 +692,18 @@ def run(ctx, only=None):
     if want("scale"):
         e0 = ctx.evals
         sizes = SCALE_SIZES_QUICK if quick else SCALE_SIZES_THOROUGH
+        # plus the thresholds the code under test names itself (literals, recursion limit)
+        from ..thresholds import code_constants, sizes_around
+        named = code_constants(REPO)
+        extra = [n for n in sizes_around(named, 13, 600 if quick else 1100) if n not in sizes]
+        big = ("reverse", "swap@8") if quick else ("identity", "reverse", "swap@8", "rotate1", "layered3")
+        if quick:       # above 300 only c and c+1 for a named constant c
+            extra = [n for n in extra if n <= 300 or n in named or n - 1 in named]
         shards = [(n, name, 3 if n <= 34 else 2) for n in sizes for name in scale_texts(n)]
+        shards += [(n, name, 2) for n in extra for name in scale_texts(n)
+                   if n <= 300 or name in big or name.endswith("mod n")]
+        shards.sort(key=lambda sh: -sh[0])       # the long texts first
+        ctx.bounds["scale_named_thresholds"] = {"constants_in_code": named, "extra_sizes": extra}
         ctx.pmap(shard_scale, shards)
         ctx.bounds["scale"] = {"text_sizes": list(sizes), "shapes": sorted(scale_texts(300)),
                                "patterns": "all of length <= 3 (sizes <= 34) / <= 2 (larger), the text "
